@@ -31,6 +31,7 @@ func init() {
 		"go.client.race":       goClientRace,
 		"go.client.deadlines":  goClientDeadlines,
 		"go.client.idle":       goClientIdle,
+		"go.client.stalled":    goClientStalled,
 	}})
 }
 
@@ -225,6 +226,8 @@ type scenario struct {
 	rngMu   sync.Mutex
 	rng     *rand.Rand
 	closing atomic.Bool
+	// stall: the servers stop READING from their connections (a stalled peer: TCP window closes)
+	stall atomic.Bool
 	// optional caller-side deadline for some calls
 	short    time.Duration
 	shortFor func(act) bool
@@ -336,6 +339,9 @@ func (ss *scriptServer) dropConn(sc *srvConn) {
 func (ss *scriptServer) serve(sc *srvConn) {
 	defer ss.wg.Done()
 	for {
+		for ss.sc.stall.Load() && !ss.sc.closing.Load() {
+			time.Sleep(5 * time.Millisecond)
+		}
 		_, payload, _, err := sc.readFrame()
 		if err != nil {
 			return
@@ -979,6 +985,58 @@ func goClientIdle(a []string) string {
 	return "ok"
 }
 
+// goClientStalled: a peer that stops READING (it neither answers nor closes; its TCP window fills). Connection.Send
+// writes to the socket while holding Connection.mu and has no write deadline, and Request calls it before it starts
+// waiting on its context: once the socket buffers are full, the call inside Write, and every other call queued on the
+// mutex, cannot return at their deadline. Oracle: every call returns an error by its deadline + tolerance.
+//
+//	args: seed callers queryMiB timeoutMs stallMs
+func goClientStalled(a []string) string {
+	quiet12()
+	seed, callers, mib, tmo, stallMs := int64(atoi12(a[0])), atoi12(a[1]), atoi12(a[2]), atoi12(a[3]), atoi12(a[4])
+	acts := make([]act, callers)
+	for i := range acts {
+		acts[i] = act{kind: 'x'}
+	}
+	T := time.Duration(tmo) * time.Millisecond
+	sc, conns, err := newScenario(seed, 1, T, acts)
+	if err != nil {
+		return "FAIL setup " + err.Error()
+	}
+	defer sc.shutdown(conns)
+	lagReset()
+	sc.stall.Store(true)
+	time.AfterFunc(time.Duration(stallMs)*time.Millisecond, func() { sc.stall.Store(false) })
+	els := make([]time.Duration, callers)
+	errs := make([]error, callers)
+	var wg sync.WaitGroup
+	for i := 0; i < callers; i++ {
+		wg.Add(1)
+		go func(i int) {
+			defer wg.Done()
+			q := make([]byte, mib<<20)
+			binary.LittleEndian.PutUint32(q, uint32(i))
+			start := time.Now()
+			_, errs[i] = sc.client.Request(context.Background(), q)
+			els[i] = time.Since(start)
+		}(i)
+	}
+	wg.Wait()
+	worst := time.Duration(0)
+	for i := range els {
+		if errs[i] == nil {
+			return fmt.Sprintf("FAIL unanswered-call-returned-ok call=%d", i)
+		}
+		if els[i] > worst {
+			worst = els[i]
+		}
+	}
+	if worst > T+time.Second+5*lagSeen() {
+		return fmt.Sprintf("FAIL deadline-overrun-on-stalled-peer timeout=%v slowest-call=%v peer-stalled-for=%dms", T, worst, stallMs)
+	}
+	return "ok"
+}
+
 // goClientRoundRobin: sequential calls over n connections reach the servers in the order 0,1,..,n-1,0,..
 func goClientRoundRobin(a []string) string {
 	quiet12()
@@ -1265,6 +1323,10 @@ func genC12(g *h.G) {
 		g.Emit("go.client.deadlines", fmt.Sprint(g.Rng.Int31()), fmt.Sprint(1+g.Rng.Intn(3)), fmt.Sprint(g.Pick(120, 150, 200, 300)))
 	}
 	if g.Thorough() {
+		// a peer that stops reading for 2.5 s while 16 callers send 6 MiB queries with a 300 ms timeout: KNOWN FINDING.
+		// Thorough tier only: a (known) oracle failure in the quick tier would switch off check.py's failing-input search
+		// for broken proof obligations.
+		g.Emit("go.client.stalled", fmt.Sprint(g.Rng.Int31()), "16", "6", "300", "2500")
 		g.Emit("go.client.race", fmt.Sprint(g.Rng.Int31()), "40")
 	}
 }
